@@ -58,13 +58,13 @@ Proof.
   intros HR. unfold dom_nested.
   assert (T : forall s, IdsSame st s -> IdsSame st (collect s)) by (intros s O; eapply ids_trans; [exact O | apply ids_collect]).
   destruct len1 as [l|], (starred nm); try apply ids_refl.
-  - destruct (Z.eqb l 0); [apply ids_refl|]. pose proof (HR st (cname_of nm) None) as O1.
+  - pose proof (HR st (cname_of nm) None) as O1.
     destruct (rec st (cname_of nm) None) as [s1 r]. cbn [fst] in O1. destruct r as [o b|k e].
-    + destruct (obj_len (heap s1) o); [destruct (Z.eqb a l)|]; cbn [fst]; auto.
+    + destruct (obj_length (heap s1) o); [destruct (Z.eqb a l)|]; cbn [fst]; auto.
     + destruct (is_singleton_err k); cbn [fst]; auto.
-  - destruct (Z.eqb l 0); [apply ids_refl|]. pose proof (HR st (cname_of nm) None) as O1.
+  - pose proof (HR st (cname_of nm) None) as O1.
     destruct (rec st (cname_of nm) None) as [s1 r]. cbn [fst] in O1. destruct r as [o b|k e].
-    + destruct (obj_len (heap s1) o); cbn [fst]; auto.
+    + destruct (obj_length (heap s1) o); cbn [fst]; auto.
       pose proof (HR (collect s1) (cname_of nm) (Some l)) as O2.
       destruct (rec (collect s1) (cname_of nm) (Some l)) as [s2 r2]. cbn [fst] in O2.
       assert (O2' : IdsSame st s2) by (eapply ids_trans; [apply T; exact O1 | exact O2]).
@@ -73,7 +73,7 @@ Proof.
     + destruct (is_singleton_err k); cbn [fst]; auto.
   - pose proof (HR st (cname_of nm) None) as O1.
     destruct (rec st (cname_of nm) None) as [s1 r]. cbn [fst] in O1. destruct r as [o b|k e].
-    + destruct (obj_len (heap s1) o); cbn [fst]; auto.
+    + destruct (obj_length (heap s1) o); cbn [fst]; auto.
     + destruct (is_singleton_err k); cbn [fst]; auto.
 Qed.
 
